@@ -121,7 +121,10 @@ func ParseChangesFile(path string) (ret *Changes, err error) {
 // to something invalid if you're not using those functions.
 func ParseChanges(reader *bufio.Reader, path string) (*Changes, error) {
 	ret := &Changes{Filename: path}
-	return ret, Unmarshal(ret, reader)
+	if err := Unmarshal(ret, reader); err != nil {
+		return nil, err
+	}
+	return ret, nil
 }
 
 // Return a list of FileListChangesFileHash entries from the `changes.Files`
